@@ -693,3 +693,159 @@ Proof.
   intros evs. pose proof (oinv_run evs O.st0 [] oinv0) as I. destruct (orun (O.st0, []) evs) as [s lv].
   cbn [fst snd] in I. split; [exact I|apply oinv_sizes; exact I].
 Qed.
+
+(* ================================================================== *)
+(* 8. composition                                                      *)
+
+Section Composition.
+Variable c : R.cfg.
+Variables lt le : Z.
+
+Record CInv (s : conn) : Prop := {
+  ci_dd : DP.all_bounded (D.cache (dd s));
+  ci_rx : pend_owned (rx s);
+  ci_tk : tok_owned (tk s);
+  ci_pg : Forall (fun p => 0 <= R.p_count p /\ 0 <= R.p_elapsed p) (pg s);
+  ci_lm : exists tr, lm s = L.run (L.new_lim lt le) tr;
+  ci_ob : OInv (ob s) (live s);
+  ci_mx : mx_idle (mx s) /\ tab (mx s) = []
+}.
+
+Definition ev_ok (e : cev) : Prop := match e with AgeAll ms => 0 <= ms | _ => True end.
+
+Lemma cinv_init : CInv (Model.init lt le).
+Proof.
+  constructor; cbn.
+  - constructor.
+  - intros p [].
+  - intros tok r [].
+  - constructor.
+  - exists []. reflexivity.
+  - exact oinv0.
+  - split; [split; [apply inv_init; cbn; lia|reflexivity]|reflexivity].
+Qed.
+
+Lemma lm_step_reach l a : (exists tr, l = L.run (L.new_lim lt le) tr) -> exists tr, L.step l a = L.run (L.new_lim lt le) tr.
+Proof. intros [tr ->]. exists (tr ++ [a]). rewrite <- run_app. reflexivity. Qed.
+
+Lemma cinv_step s e : CInv s -> ev_ok e -> CInv (Model.step c s e).
+Proof.
+  intros I He. destruct e; cbn [Model.step ev_ok] in *.
+  - (* EIn *)
+    destruct (ci_mx s I) as [Hidle _]. destruct (mx_cycle (mx s) mid Hidle) as [H1 H2].
+    constructor; cbn; try apply I; [|split; assumption].
+    apply DP.step_all_bounded; [apply I|cbn; lia].
+  - constructor; cbn; try apply I; [apply pend_owned_step; apply I|apply tok_owned_step; apply I].
+  - constructor; cbn; try apply I; [apply pend_owned_step; apply I|do 2 apply tok_owned_step; apply I].
+  - constructor; cbn; try apply I. apply pend_owned_step; apply I.
+  - constructor; cbn; try apply I. apply pend_owned_step; apply I.
+  - constructor; cbn; try apply I; [apply pend_owned_step; apply I|apply tok_owned_step; apply I].
+  - constructor; cbn; try apply I. apply lm_step_reach. apply I.
+  - constructor; cbn; try apply I. apply lm_step_reach. apply I.
+  - constructor; cbn; try apply I. apply lm_step_reach. apply I.
+  - constructor; cbn; try apply I. destruct (ci_lm s I) as [tr Htr]. destruct (settle_is_run SETTLE_FUEL (lm s)) as [tr2 H2].
+    exists (tr ++ tr2). unfold L.settle. rewrite H2, Htr. apply run_app.
+  - constructor; cbn; try apply I. apply oinv_step. apply I.
+  - constructor; cbn; try apply I. apply oinv_step. apply I.
+  - constructor; cbn; try apply I. apply oinv_step. apply I.
+  - constructor; cbn; apply I.
+  - constructor; cbn; apply I.
+  - constructor; cbn; apply I.
+  - constructor; cbn; apply I.
+  - constructor; cbn; apply I.
+  - constructor; cbn; try apply I. apply Forall_app. split; [apply I|]. constructor; [cbn; lia|constructor].
+  - constructor; cbn; try apply I. unfold R.del_pend. apply RP.filter_Forall. apply I.
+  - (* AgeAll *)
+    constructor; cbn; try apply I.
+    + apply (DP.step_all_bounded (dd s) (D.Age ms)); [apply I|exact He].
+    + apply (pend_owned_step c (rx s) (R.Age ms)). apply I.
+    + pose proof (ci_pg s I) as HP. induction HP as [|p r [H1 H2] _ IH]; cbn [map]; constructor; [cbn; lia|exact IH].
+  - (* TickAll *)
+    constructor; cbn; try apply I.
+    + apply (DP.step_all_bounded (dd s) D.Tick); [apply I|cbn; lia].
+    + apply (pend_owned_step c (rx s) R.Tick). apply I.
+    + unfold pstep. cbn [R.step]. destruct (R.tick_all c (pg s)) as [l em] eqn:Et. cbn [fst R.pending].
+      apply Forall_forall. intros p' Hp'. pose proof (tick_all_in c (pg s) p') as HT. rewrite Et in HT.
+      destruct (HT Hp') as (p & b & Hin & Hte). pose proof (ci_pg s I) as HP. rewrite Forall_forall in HP. destruct (HP p Hin) as [H1 H2].
+      destruct (RP.tick_entry_keep c p p' b Hte) as [_ Hc].
+      unfold R.tick_entry in Hte. destruct ((match R.p_dl p with Some d => d <? 0 | None => false end) || (R.p_count p >=? R.max_rt c)); [discriminate|].
+      destruct (R.ack_ms c * (R.p_count p + 1) <? R.p_elapsed p); inversion Hte; subst; cbn; lia.
+Qed.
+
+Lemma cinv_run evs : forall s, CInv s -> Forall ev_ok evs -> CInv (Model.run c s evs).
+Proof.
+  induction evs as [|e r IH]; intros s I H; [exact I|]. inversion H; subst. cbn [Model.run fold_left]. apply IH; [apply cinv_step; assumption|assumption].
+Qed.
+
+(* every call has returned and no registration is in flight *)
+Definition calls_done (s : conn) : Prop :=
+  all_returned (rx s) /\ (forall r tok, tst (tk s) r <> TWait tok) /\ LP.all_done (lm s) /\ no_waiting (ob s).
+
+(* ageing past every deadline, MAX_RETRANSMIT+1 housekeeping ticks, block-wise sweep *)
+Definition nticks (n : nat) (s : conn) : conn := Model.run c s (repeat TickAll n).
+Definition closing (d : Z) (s : conn) : conn :=
+  Model.step c (nticks (S (Z.to_nat (R.max_rt c))) (Model.step c s (AgeAll d))) BwExpire.
+
+Lemma nticks_static n : forall s,
+  tk (nticks n s) = tk s /\ lm (nticks n s) = lm s /\ ob (nticks n s) = ob s /\ mx (nticks n s) = mx s /\ live (nticks n s) = live s /\
+  pg (nticks n s) = ticks c n (pg s) /\
+  (R.pending (rx s) = [] -> R.pending (rx (nticks n s)) = []) /\
+  ((0 < n)%nat -> left_le (-1) (D.cache (dd s)) -> D.cache (dd (nticks n s)) = []).
+Proof.
+  induction n as [|n IH]; intros s.
+  - cbn. repeat split; auto. intros H; lia.
+  - unfold nticks in *. cbn [repeat Model.run fold_left]. specialize (IH (Model.step c s TickAll)).
+    destruct IH as (H1 & H2 & H3 & H4 & H5 & H6 & H7 & H8). cbn [Model.step] in *.
+    repeat split; try assumption.
+    + rewrite H6. cbn [ticks pg with_pg]. unfold pstep. cbn [R.step]. destruct (R.tick_all c (pg s)); reflexivity.
+    + intros Hp. apply H7. cbn. rewrite Hp. cbn. reflexivity.
+    + intros _ Hl. destruct n as [|n'].
+      * cbn. apply tick_clears. exact Hl.
+      * apply H8; [lia|]. cbn. rewrite (tick_clears _ Hl). constructor.
+Qed.
+
+Lemma filter_none {A} (f : A -> bool) l : (forall x, f x = false) -> filter f l = [].
+Proof. intros H. induction l as [|a r IH]; cbn; [reflexivity|]. rewrite H. exact IH. Qed.
+
+Theorem all_empty : forall s d, 0 <= R.ack_ms c -> 0 <= R.max_rt c ->
+  CInv s -> calls_done s -> D.LIFETIME < d -> R.ack_ms c * (R.max_rt c + 1) < d ->
+  sizes (closing d s) = [0; 0; 0; 0; 0; 0; 0; 0; 0; 0; blen (live s)] /\ live (closing d s) = live s.
+Proof.
+  intros s d Hack Hmr I (Hret & Htok & Hlim & Hnw) Hd1 Hd2.
+  assert (Hd0 : 0 <= d) by (unfold D.LIFETIME in Hd1; lia).
+  set (s1 := Model.step c s (AgeAll d)).
+  assert (Hp0 : R.pending (rx s) = []).
+  { destruct (R.pending (rx s)) as [|p r] eqn:E; [reflexivity|].
+    destruct (ci_rx s I p ltac:(rewrite E; left; reflexivity)) as (q & Hq & _ & Hst). specialize (Hret q Hq). destruct (R.q_st q); discriminate. }
+  destruct (nticks_static (S (Z.to_nat (R.max_rt c))) s1) as (H1 & H2 & H3 & H4 & H5 & H6 & H7 & H8).
+  unfold closing. fold s1. set (s2 := nticks (S (Z.to_nat (R.max_rt c))) s1) in *.
+  assert (Etk : ttab (tk s) = []).
+  { destruct (ttab (tk s)) as [|[tok r] rest] eqn:E; [reflexivity|]. exfalso. apply (Htok r tok). apply (ci_tk s I). rewrite E. left. reflexivity. }
+  assert (Epg : pg s2 = []).
+  { rewrite H6. apply pending_exhausts; [exact Hack|exact Hmr|]. unfold s1. cbn [Model.step pg with_pg]. unfold pstep. cbn [R.step fst R.pending].
+    pose proof (ci_pg s I) as HP. induction HP as [|p r [Ha Hb] _ IH]; cbn [map]; constructor; [cbn; lia|exact IH]. }
+  assert (Erx : R.pending (rx s2) = []).
+  { apply H7. unfold s1. cbn. rewrite Hp0. reflexivity. }
+  assert (Edd : D.cache (dd s2) = []).
+  { apply H8; [lia|]. unfold s1. cbn [Model.step dd with_pg rstep with_rx with_dd].
+    pose proof (d_quiet_step (dd s) (D.Age d) D.LIFETIME ltac:(cbn; exact Hd0) (ci_dd s I)) as Hb. cbn [DP.age_of] in Hb.
+    eapply left_le_weaken; [|exact Hb]. lia. }
+  destruct (ci_lm s I) as [tr Htr].
+  assert (Hidle : (forall k, L.tab (lm s) k = None) /\ L.held (lm s) = 0 /\ L.semq (lm s) = []).
+  { rewrite Htr. apply LP.idle. rewrite <- Htr. exact Hlim. }
+  destruct Hidle as (Ht & Hh & Hq).
+  assert (Els : lm s2 = lm s) by (rewrite H2; reflexivity).
+  assert (Eob : ob s2 = ob s) by (rewrite H3; reflexivity).
+  assert (Emx : mx s2 = mx s) by (rewrite H4; reflexivity).
+  assert (Elv : live s2 = live s) by (rewrite H5; reflexivity).
+  assert (Etk2 : tk s2 = tk s) by (rewrite H1; reflexivity).
+  split; [|cbn; exact Elv].
+  unfold sizes, n_tokens, n_mids, n_mutex, n_cache, n_limkeys, n_limqueued. cbn [Model.step tk rx pg mx dd bs br lm ob with_bs with_br].
+  rewrite Etk2, Etk, Erx, Epg, Emx, (proj2 (ci_mx s I)), Edd, Els, Eob, Hh, Hq.
+  rewrite (filter_none _ _ (fun k => ltac:(rewrite Ht; reflexivity))).
+  assert (Hfold : forall l a, fold_left (fun a0 k => a0 + match L.tab (lm s) k with Some (_, q) => blen q | None => 0 end) l a = a).
+  { induction l as [|k r IHl]; intros a; cbn [fold_left]; [reflexivity|]. rewrite Ht. rewrite IHl. lia. }
+  rewrite Hfold. unfold blen at 1 2 3 4 5 6 7 8 9 10. cbn [length Z.of_nat Z.add].
+  unfold blen. rewrite (oinv_sizes _ _ (ci_ob s I) Hnw). reflexivity.
+Qed.
+End Composition.
